@@ -19,8 +19,8 @@ ElementTree's Element.get / find / attrib are the (assumed) accessors.
 """
 import z3
 
-from vf.contract import Contract
-from vf.pyvc import SRef, SInt, SBool, SStr, SOptStr, Ref, OpaqueFn, Sym, OutOfSubset, StrSort, Closure, ClassInfo, NONEMPTY, PyRaise
+from vf.contract import Contract, LoopAnn
+from vf.pyvc import SRef, SSeq, SInt, SBool, SStr, SOptStr, Ref, OpaqueFn, Sym, OutOfSubset, StrSort, Closure, ClassInfo, NONEMPTY, PyRaise
 from vf import interp as I
 
 ISAR = 'prophyc/parsers/isar.py'
@@ -250,3 +250,183 @@ Contract(ISAR, 'make_struct_members', ['C17'], msm_setup, msm_post, raises=msm_r
                 'format': msm_format},
          notes=['attribute values are opaque strings; "@" in s[0], the VARIABLE marker, lower/upper, s[0], s[1:] are uninterpreted',
                 'ElementTree Element.get/find/attrib assumed'])
+
+
+# ------------------------------------------------------------------------------------------------ make_enum
+#
+# make_enum(xml_elem): for every <enum> with any number of <enum-member> children the result is an Enum named as the
+# element whose i-th member is EnumMember(name_i, expand_operators(v_i')), where v_i' is the child's value, except that a
+# value that reads as a negative integer n is replaced by the text "0x%X" of n + 2**32 (the unsigned 32-bit reading
+# the prophy language uses for negative enumerators).  No children: None.  Exceptions: ParseError for a missing
+# name / value attribute, and the ValueError of check_for_duplicates (the recorded C13 finding).
+# Assumed: int(s, 0) raises ValueError exactly for non-numeric text (NUMERIC), "0x{:X}".format(n) spells n (HEXTEXT);
+# expand_operators is an opaque function of its argument here; check_for_duplicates is summarised (reads only).
+
+from .absobj import AbsList
+
+NCHILD = z3.Function('xml.nchild', z3.IntSort())
+C_NONE = {a: z3.Function('child.%s#none' % a, z3.IntSort(), z3.BoolSort()) for a in ('name', 'value', 'comment')}
+C_VAL = {a: z3.Function('child.%s' % a, z3.IntSort(), StrSort) for a in ('name', 'value', 'comment')}
+NUMERIC = z3.Function('int0.numeric', StrSort, z3.BoolSort())      # int(s, 0) does not raise
+INTOF = z3.Function('int0.value', StrSort, z3.IntSort())           # its value
+HEXTEXT = z3.Function('format.0x%X', z3.IntSort(), StrSort)
+EXPAND = z3.Function('expand_operators', StrSort, StrSort)
+ENAME = z3.Function('EnumMember.name', Ref, StrSort)
+EVALUE = z3.Function('EnumMember.value', Ref, StrSort)
+
+
+class EnumElem(Elem):
+    pass
+
+
+class ChildElem(Sym):
+    def __init__(self, i):
+        self.i = i
+        self.tag = 'enum-member'
+
+    def attr(self, a):
+        return SOptStr(C_NONE[a](self.i), C_VAL[a](self.i))
+
+
+class EnumObj(Sym):
+    def __init__(self, name, members):
+        self.name, self.members = name, members
+
+
+def me_setup(vm, module, env):
+    elem = EnumElem(vm, 'enum', ['name', 'comment'])
+    vm.assume(NCHILD() >= 0)
+    st = {'args': [elem], 'elem': elem, 'closure_env': {}, 'members': None, 'enum': None}
+    vm.state = st
+    return st
+
+
+def want_value(i):
+    v = C_VAL['value'](i)
+    neg = z3.And(NUMERIC(v), INTOF(v) < 0)
+    return EXPAND(z3.If(neg, HEXTEXT(4294967296 + INTOF(v)), v))
+
+
+def me_hooks():
+    def getattr_(vm, obj, attr):
+        if isinstance(obj, ChildElem) and attr == 'get':
+            return I.MethodOf(obj, 'get')
+        if isinstance(obj, ChildElem) and attr == 'tag':
+            return obj.tag
+        if isinstance(obj, EnumObj) and attr in ('name', 'members'):
+            return getattr(obj, attr)
+        if isinstance(obj, AbsList) and attr == 'append':
+            return I.MethodOf(obj, 'append')
+        return msm_getattr(vm, obj, attr)
+
+    def method(vm, obj, name, args, kwargs):
+        if isinstance(obj, ChildElem) and name == 'get':
+            v = obj.attr(args[0])
+            if len(args) > 1 and args[1] is not None:
+                return SStr(z3.If(v.isnone, vm.as_str(args[1]), v.t))
+            return v
+        if isinstance(obj, AbsList) and name == 'append':
+            obj.m_append(vm, args[0])
+            return None
+        return msm_method(vm, obj, name, args, kwargs)
+
+    def call(vm, fn, args, kwargs, node):
+        st = vm.state
+        n = getattr(fn, 'name', None) or getattr(fn, 'qualname', None) or ''
+        last = n.split('.')[-1] if isinstance(n, str) else ''
+        if isinstance(fn, Closure) and last == 'get_required':
+            e, a = args[0], args[1]
+            v = e.attr(a) if isinstance(e, ChildElem) else e.attrs[a]
+            if vm.decide(v.isnone):
+                raise PyRaise(I.ExcClass('ParseError'))
+            return SStr(v.t)
+        if isinstance(fn, Closure) and last == 'get_docstr':
+            return SOptStr(vm.fresh('doc#none', z3.BoolSort()), vm.fresh('doc', StrSort))
+        if isinstance(fn, Closure) and last == 'expand_operators':
+            return SStr(EXPAND(vm.as_str(args[0])))
+        if isinstance(fn, Closure) and last == 'check_for_duplicates':
+            if vm.decide(vm.fresh('duplicate_values', z3.BoolSort())):
+                raise PyRaise(I.ExcClass('ValueError'))
+            return None
+        if last == 'EnumMember':
+            if len(args) != 2 or any(k != 'docstring' for k in kwargs):
+                raise OutOfSubset('EnumMember constructor shape')
+            r = vm.fresh_ref('enum_member', None)
+            vm.assume(z3.And(ENAME(r.t) == vm.as_str(args[0]), EVALUE(r.t) == vm.as_str(args[1])))
+            return r
+        if last == 'Enum' and not isinstance(fn, Closure):
+            if len(args) != 2 or any(k != 'docstring' for k in kwargs):
+                raise OutOfSubset('Enum constructor shape')
+            st['enum'] = EnumObj(args[0], args[1])
+            return st['enum']
+        return NotImplemented
+
+    def int_(vm, args):
+        if len(args) == 2 and args[1] == 0 and isinstance(args[0], SStr):
+            s = args[0].t
+            if vm.decide(NUMERIC(s)):
+                return SInt(INTOF(s))
+            raise PyRaise(I.ExcClass('ValueError'))
+        return NotImplemented
+
+    def format_(vm, fmt, args, kwargs):
+        if fmt == '0x{:X}' and len(args) == 1:
+            return SStr(HEXTEXT(vm.as_int(args[0])))
+        return msm_format(vm, fmt, args, kwargs)
+
+    def len_(vm, x):
+        return NotImplemented
+
+    def iterate(vm, it):
+        if isinstance(it, EnumElem):
+            return SSeq(NCHILD(), lambda i: ChildElem(i), 'children')
+        return NotImplemented
+
+    return {'getattr': getattr_, 'method': method, 'call': call, 'int': int_, 'format': format_, 'iterate': iterate,
+            'contains': msm_contains, 'index': msm_index, 'slice': msm_slice}
+
+
+EnumElem.sym_len = lambda self, vm: SInt(NCHILD())
+
+
+def fresh_members(vm, name):
+    st = vm.state
+    st['members'] = AbsList(vm, 'members')
+    return st['members']
+
+
+def members_facts(vm, ms, k):
+    if isinstance(ms, list):
+        return [('members collected so far', z3.BoolVal(len(ms) == 0) if z3.is_int_value(z3.simplify(k)) and z3.simplify(k).as_long() == 0
+                 else z3.And(k == 0, z3.BoolVal(len(ms) == 0)))]
+    j = z3.Int('j')
+    return [('one member per child so far', ms.length == k),
+            ('each named as its child, valued by the (sign-converted, operator-expanded) value of its child',
+             z3.ForAll([j], z3.Implies(z3.And(0 <= j, j < k),
+                                       z3.And(ENAME(ms.elem(j).t) == C_VAL['name'](j), EVALUE(ms.elem(j).t) == want_value(j)))))]
+
+
+def me_inv(vm, env, k):
+    return members_facts(vm, env.get('members'), k)
+
+
+def me_post(vm, st, result):
+    if result is None:
+        return [('None only for an element without children', NCHILD() == 0)]
+    if not isinstance(result, EnumObj):
+        return [('result is the Enum built here', z3.BoolVal(False))]
+    r = [('an Enum only for an element with children', NCHILD() > 0),
+         ('named as the element', vm.as_str(result.name) == st['elem'].attrs['name'].t)]
+    return r + members_facts(vm, result.members, NCHILD())
+
+
+def me_raises(vm, st, exc_class, exc_args):
+    n = str(getattr(exc_class, 'name', exc_class))
+    return [('only ParseError (missing attribute) or the ValueError of check_for_duplicates',
+             z3.BoolVal(n.endswith('ParseError') or n.endswith('ValueError')))]
+
+
+Contract(ISAR, 'make_enum', ['C17'], me_setup, me_post, raises=me_raises, modifies=[], hooks=me_hooks(),
+         loops={1: LoopAnn(me_inv, index='k', locals_={'members': fresh_members}, extra_havoc=('members',))},
+         notes=['int(s, 0) / "0x{:X}".format as uninterpreted NUMERIC / INTOF / HEXTEXT; expand_operators opaque; '
+                'check_for_duplicates summarised (raises ValueError or returns, reads only)'])
